@@ -42,7 +42,7 @@ structure ClNum (b : Buf) (i : Nat) (st : PUIntBody) : Prop where
     st.soffs < i ∧ AllDigits (digitsOf b st.soffs i) ∧ st.uiVal = decOf (digitsOf b st.soffs i)
   done : (st.state = .fend ∨ st.state = .fin) → NumDone b st.sVal st.uiVal
 
-theorem set_eq (s e : Nat) (hse : s ≤ e) (he : e ≤ 65535) : PField.set s e = ⟨s, e - s⟩ := by
+theorem pfield_set_eq (s e : Nat) (hse : s ≤ e) (he : e ≤ 65535) : PField.set s e = ⟨s, e - s⟩ := by
   unfold PField.set trunc16
   rw [Nat.mod_eq_of_lt (by omega), Nat.mod_eq_of_lt (by omega)]
 
@@ -71,7 +71,7 @@ theorem clStep_num (b : Buf) (i : Nat) (c : UInt8) (st : PUIntBody) (hfit : b.si
       obtain ⟨h1, h2, h3⟩ := h.found hst
       refine key _ (fun hh => by cases hh) ⟨(fun hh => by cases hh), fun _ => ?_⟩
       show NumDone b (PField.set st.soffs i) st.uiVal
-      exact ⟨st.soffs, i, set_eq _ _ (by omega) (by omega), h1, hi, h2, h3⟩
+      exact ⟨st.soffs, i, pfield_set_eq _ _ (by omega) (by omega), h1, hi, h2, h3⟩
     case fin => exact ⟨by omega, (fun hh => by rw [hst] at hh; cases hh), h.done⟩
     all_goals exact key st (by rw [hst]; decide) h
   · simp only [hl, Bool.false_eq_true, ↓reduceIte]
@@ -196,7 +196,7 @@ theorem csStep_num (b : Buf) (i : Nat) (c : UInt8) (st : PCSeqBody) (hfit : b.si
       obtain ⟨h1, h2, h3⟩ := h.found hst
       refine key _ (fun hh => by cases hh) ⟨(fun hh => by cases hh), fun _ => ?_⟩
       show NumDone b (PField.set st.soffs i) st.cseqNo
-      exact ⟨st.soffs, i, set_eq _ _ (by omega) (by omega), h1, hi, h2, h3⟩
+      exact ⟨st.soffs, i, pfield_set_eq _ _ (by omega) (by omega), h1, hi, h2, h3⟩
     case foundMethod =>
       exact key { csSetMethod st i with state := .fend } (fun hh => by cases hh)
         (hkeep { csSetMethod st i with state := .fend } rfl rfl (fun hh => by cases hh) (fun hh => by cases hh)
